@@ -157,6 +157,13 @@ def undirected_case(ctx, rng, idx, N):
                 k = canon(p, N)
                 got2[k] = got2.get(k, 0) + c
         ctx.check("C11:relabel-invariance", got2 == base, f"C11:order{N}:census-changed-under-relabelling-or-insertion-order", lambda: wit({"perm": pm, "got": sorted(got2.items()), "base": sorted(base.items())}))
+    # the same Hypergraph object after an in-place edit that keeps the numbers of nodes and hyperedges
+    from ..mutate import same_count_edit
+
+    if same_count_edit(rng, h):
+        ctx.event("re-evaluated-after-in-place-edit")
+        es2 = {frozenset(e) for e in h.get_edges()}
+        judge_census(ctx, h, es2, N, lambda extra=None: {"order": N, "edges after in-place edit": sorted(map(sorted, es2)), "extra": repr(extra)[:900]}, tag=":after-in-place-edit")
     if sum(base.values()) >= 2:
         ctx.distinct_add((N, tuple(sorted(map(lambda e: tuple(sorted(e)), edge_sets)))))
     if idx % 40 < 2:
